@@ -30,6 +30,7 @@ Accept(e, c) ==
     [] e.op = "clone" -> PropClone(c, e.a, e.calls, e.res)
     [] e.op = "clone_from" -> PropCloneFrom(c, e.a, e.b, e.res)
     [] e.op = "fmt" -> PropDebug(c, e)
+    [] e.op = "default" -> PropDefault(c, e)
     [] OTHER -> FALSE
 
 TraceInit == l = 1 /\ bad = <<>> /\ learned = <<>>
